@@ -174,6 +174,20 @@ func main() {
 				check(fmt.Sprintf("%v: RESP2 reply (%d bytes) is the down-conversion of the RESP3 reply (%d bytes)", argv, len(r2), len(d)), false)
 			}
 		}
+		// the reply of EXEC carries the replies of the queued commands: under RESP2 every one of them is
+		// down-converted, whatever its type
+		do(a, "SADD", "st", "m")
+		for _, c := range []*redisemu.VerifClient{a, b} {
+			do(c, "MULTI")
+			do(c, "HGETALL", "h")
+			do(c, "SMEMBERS", "st")
+			do(c, "HRANDFIELD", "h", "1", "WITHVALUES")
+			do(c, "INCRBYFLOAT", "fl", "1.5")
+			do(c, "CLIENT", "INFO")
+		}
+		e2, e3 := do(a, "EXEC"), do(b, "EXEC")
+		check(fmt.Sprintf("EXEC on a RESP2 connection uses RESP2 types only (got %.200q)", e2), respio.Resp2Only(e2))
+		check(fmt.Sprintf("EXEC on a RESP3 connection keeps the RESP3 types (got %.200q)", e3), bytes.Contains(e3, []byte("%1\r\n")))
 		do(b, "HELLO", "2")
 		r := do(b, "HELLO", "4")
 		check("refused HELLO on a RESP2 connection keeps RESP2", bytes.HasPrefix(r, []byte("-")) && bytes.HasPrefix(do(b, "HGETALL", "h"), []byte("*2")))
